@@ -1318,7 +1318,12 @@ class TaintInterp:
         if q in ("itertools.islice", "itertools.takewhile", "itertools.dropwhile", "itertools.filterfalse", "itertools.compress"):
             src = a[0] if q != "itertools.takewhile" and q != "itertools.dropwhile" and q != "itertools.filterfalse" else (a[1] if len(a) > 1 else a[0])
             el, ot = self.iterate(src, fi, e)
-            return seq(el, ot | (allt - tt(src)), ("slice", getattr(src, "oid", None), id(e)))
+            out = seq(el, ot | (allt - tt(src)), ("slice", getattr(src, "oid", None), id(e)))
+            if q in ("itertools.islice", "itertools.takewhile", "itertools.dropwhile"):
+                # which elements are kept depends on the order in which the source lists them: that does not go away by
+                # sorting the result
+                out = add(out, ot)
+            return out
         if q == "itertools.pairwise":
             el, ot = self.iterate(a[0], fi, e)
             return seq(tup([el, el]), ot, ("pairwise", id(e)))
